@@ -38,6 +38,11 @@ pub fn file_uri(p: &Path) -> String {
 impl Lsp {
     /// Starts the server on a workspace folder (which must contain oal.toml) and performs the handshake.
     pub fn start(ws: &Path, exe: Option<&Path>) -> Result<Lsp, LspError> {
+        Self::start_folders(ws, &[ws.to_owned()], exe)
+    }
+
+    /// Starts the server in `ws` with several workspace folders (each must contain oal.toml).
+    pub fn start_folders(ws: &Path, folders: &[std::path::PathBuf], exe: Option<&Path>) -> Result<Lsp, LspError> {
         let stderr_path = ws.join(format!(".lsp-stderr-{}", std::process::id()));
         let errf = std::fs::File::create(&stderr_path).map_err(|e| LspError::Died(e.to_string()))?;
         let exe = exe.map(|p| p.to_owned()).unwrap_or_else(lsp_path);
@@ -95,14 +100,19 @@ impl Lsp {
             stderr_path,
             request_timeout: Duration::from_secs(30),
         };
-        let uri = file_uri(ws);
+        let uri = file_uri(&folders[0]);
+        let wf: Vec<Value> = folders
+            .iter()
+            .enumerate()
+            .map(|(i, f)| json!({"uri": file_uri(f), "name": format!("ws{i}")}))
+            .collect();
         lsp.request(
             "initialize",
             json!({
                 "processId": null,
                 "rootUri": uri,
                 "capabilities": {"general": {"positionEncodings": ["utf-16"]}},
-                "workspaceFolders": [{"uri": uri, "name": "ws"}],
+                "workspaceFolders": wf,
             }),
         )?;
         lsp.notify("initialized", json!({}))?;
